@@ -372,8 +372,6 @@ namespace Sentinel.Iso
 
 structure R (m : St) (s : SpecSt) : Prop where
   rules : m.rules = s.rules
-  raw : m.raw = s.raw
-  ali : m.ali = s.ali
   live : m.live = s.live
   gauge : ∀ res, m.gauge res = ((inflight s.live res : Nat) : Int)
   nodup : (s.live.map (·.1)).Nodup
@@ -390,21 +388,20 @@ theorem nInflight_replicate_idle (n : Nat) : nInflight (List.replicate n Pc.idle
 theorem step_refines (m : St) (s : SpecSt) (op : Op) (h : R m s) (hb : s.live.length + opSize op < 2147483648) :
     (step m op).2 = (specStep s op).2 ∧ R (step m op).1 (specStep s op).1 ∧
       (specStep s op).1.live.length ≤ s.live.length + opSize op := by
-  obtain ⟨hr, hraw, hal, hl, hg, hn⟩ := h
+  obtain ⟨hr, hl, hg, hn⟩ := h
   cases op with
   | load rs =>
-    exact ⟨rfl, ⟨rfl, rfl, rfl, hl, hg, hn⟩, by simp [specStep, opSize]⟩
+    exact ⟨rfl, ⟨rfl, hl, hg, hn⟩, by simp [specStep, opSize]⟩
   | loadres sc res ths =>
-    exact ⟨rfl, ⟨by simp only [step, specStep, hr, hraw, hal], by simp only [step, specStep, hr, hraw, hal],
-      by simp only [step, specStep, hr, hraw, hal], hl, hg, hn⟩, by simp [specStep, opSize]⟩
+    exact ⟨rfl, ⟨by simp only [step, specStep, hr], hl, hg, hn⟩, by simp [specStep, opSize]⟩
   | poke res idx thr =>
-    exact ⟨rfl, ⟨by simp only [step, specStep, hr], by simp only [step, specStep, hraw], hal, hl, hg, hn⟩, by simp [specStep, opSize]⟩
+    exact ⟨rfl, ⟨by simp only [step, specStep, hr], hl, hg, hn⟩, by simp [specStep, opSize]⟩
   | getrules res =>
-    exact ⟨by simp only [step, specStep, hr], ⟨hr, hraw, hal, hl, hg, hn⟩, by simp [specStep, opSize]⟩
+    exact ⟨by simp only [step, specStep, hr], ⟨hr, hl, hg, hn⟩, by simp [specStep, opSize]⟩
   | getall =>
-    exact ⟨by simp only [step, specStep, hr], ⟨hr, hraw, hal, hl, hg, hn⟩, by simp [specStep, opSize]⟩
+    exact ⟨by simp only [step, specStep, hr], ⟨hr, hl, hg, hn⟩, by simp [specStep, opSize]⟩
   | conc res =>
-    refine ⟨?_, ⟨hr, hraw, hal, hl, hg, hn⟩, by simp [specStep, opSize]⟩
+    refine ⟨?_, ⟨hr, hl, hg, hn⟩, by simp [specStep, opSize]⟩
     simp only [step, specStep]; rw [hg]
   | exit id =>
     simp only [step, specStep, opSize, Nat.add_zero]
@@ -413,10 +410,10 @@ theorem step_refines (m : St) (s : SpecSt) (op : Op) (h : R m s) (hb : s.live.le
     | none =>
       simp only []
       rw [resOfId_none _ _ hres]
-      exact ⟨trivial, ⟨hr, hraw, hal, hl, hg, hn⟩, le_refl _⟩
+      exact ⟨trivial, ⟨hr, hl, hg, hn⟩, le_refl _⟩
     | some res =>
       simp only []
-      refine ⟨trivial, ⟨hr, hraw, hal, rfl, ?_, nodup_filter _ _ hn⟩, List.length_filter_le _ _⟩
+      refine ⟨trivial, ⟨hr, rfl, ?_, nodup_filter _ _ hn⟩, List.length_filter_le _ _⟩
       intro x
       have := inflight_filter s.live id res x hn (resOfId_some _ _ _ hres)
       simp only
@@ -430,17 +427,17 @@ theorem step_refines (m : St) (s : SpecSt) (op : Op) (h : R m s) (hb : s.live.le
     rw [hl]
     by_cases hd : isLive s.live id = true
     · simp only [hd, if_true]
-      exact ⟨trivial, ⟨hr, hraw, hal, hl, hg, hn⟩, by omega⟩
+      exact ⟨trivial, ⟨hr, hl, hg, hn⟩, by omega⟩
     · simp only [hd, Bool.false_eq_true, if_false]
       have hle := inflight_le s.live res
       rw [hg, hr, checkPass_eq_spec _ _ (by omega)]
       cases hs : specCheck (rulesOf s.rules res) (inflight s.live res) b with
       | some p =>
         simp only [Option.map_some]
-        exact ⟨trivial, ⟨hr, hraw, hal, hl, hg, hn⟩, by omega⟩
+        exact ⟨trivial, ⟨hr, hl, hg, hn⟩, by omega⟩
       | none =>
         simp only [Option.map_none]
-        refine ⟨trivial, ⟨rfl, hraw, hal, rfl, ?_, ?_⟩, by simp⟩
+        refine ⟨trivial, ⟨rfl, rfl, ?_, ?_⟩, by simp⟩
         · intro x
           simp only
           rw [inflight_cons]
@@ -451,7 +448,7 @@ theorem step_refines (m : St) (s : SpecSt) (op : Op) (h : R m s) (hb : s.live.le
         · simp only [List.map_cons, List.nodup_cons]
           exact ⟨fun hmem => hd ((isLive_iff _ _).mpr hmem), hn⟩
   | soak res G rounds b =>
-    refine ⟨?_, ⟨hr, hraw, hal, hl, hg, hn⟩, by simp [specStep, opSize]⟩
+    refine ⟨?_, ⟨hr, hl, hg, hn⟩, by simp [specStep, opSize]⟩
     simp only [step, specStep]; rw [hg, hr]
   | sched id0 res bs sch =>
     simp only [step, specStep, opSize]
@@ -459,7 +456,7 @@ theorem step_refines (m : St) (s : SpecSt) (op : Op) (h : R m s) (hb : s.live.le
     rw [hl]
     by_cases hd : ((List.range bs.length).any fun i => isLive s.live (id0 + i)) = true
     · simp only [hd, if_true]
-      exact ⟨trivial, ⟨hr, hraw, hal, hl, hg, hn⟩, by omega⟩
+      exact ⟨trivial, ⟨hr, hl, hg, hn⟩, by omega⟩
     · simp only [hd, Bool.false_eq_true, if_false]
       have hle := inflight_le s.live res
       have h0 : RT { g := m.gauge res, mx := m.gauge res, th := List.replicate bs.length Pc.idle }
@@ -477,7 +474,7 @@ theorem step_refines (m : St) (s : SpecSt) (op : Op) (h : R m s) (hb : s.live.le
         unfold specRunDrain
         simp only [specRunT_base]
       rw [hr]
-      refine ⟨by rw [hth, hmx], ⟨rfl, hraw, hal, by simp only [hth], ?_, ?_⟩, ?_⟩
+      refine ⟨by rw [hth, hmx], ⟨rfl, by simp only [hth], ?_, ?_⟩, ?_⟩
       · intro x
         simp only
         rw [inflight_schedHandles]
@@ -527,7 +524,7 @@ theorem run_refines (h : List Op) (m : St) (s : SpecSt) (hR : R m s)
     exact ⟨by rw [h1, h4], h5⟩
 
 theorem R_init (rules : List (String × Rule)) : R { rules := rules } { rules := rules } :=
-  ⟨rfl, rfl, rfl, rfl, fun _ => rfl, List.nodup_nil⟩
+  ⟨rfl, rfl, fun _ => rfl, List.nodup_nil⟩
 
 /-! ### the cap on the reference machine (sequential ops, fixed rules) -/
 
@@ -767,38 +764,13 @@ end Sentinel.Iso
 
 namespace Sentinel.Iso
 
-/-! ### as-is rule manager vs "the latest load wins" -/
+/-! ### the enforced list is the list of the latest loads (since `26e3af6`, whatever slice the caller used) -/
 
-theorem rmLoadRes_of_stores (m : RM) (sc : Bool) (res : String) (ths : List UInt32)
-    (h : rmStores m sc res ths = true) : (rmLoadRes m sc res ths).rules = loadResRules m.rules res ths := by
-  unfold rmStores at h
-  unfold rmLoadRes
-  by_cases h1 : ths.isEmpty = true
-  · simp only [h1, if_true]
-  · simp only [h1, Bool.false_eq_true, if_false] at h ⊢
-    by_cases h2 : (!sc) = true
-    · simp only [h2, if_true]
-    · simp only [h2, Bool.false_eq_true, if_false] at h ⊢
-      cases ha : aliasOf m.ali res with
-      | some k =>
-        rw [ha] at h
-        simp only [Bool.not_eq_true', decide_eq_false_iff_not] at h
-        simp only [h, if_false]
-      | none =>
-        rw [ha] at h
-        simp only [Bool.not_eq_true', decide_eq_false_iff_not] at h
-        simp only [h, if_false]
-
-theorem specStep_ideal (s : SpecSt) (o : Op) (hs : s.rules = s.ideal)
-    (hst : (match o with
-      | .loadres sc res ths => rmStores { rules := s.rules, raw := s.raw, ali := s.ali } sc res ths
-      | _ => true) = true) :
+theorem specStep_ideal (s : SpecSt) (o : Op) (hs : s.rules = s.ideal) :
     (specStep s o).1.rules = (specStep s o).1.ideal := by
   cases o with
   | load rs => rfl
-  | loadres sc res ths =>
-    simp only [specStep]
-    rw [rmLoadRes_of_stores _ _ _ _ hst, hs]
+  | loadres sc res ths => simp only [specStep, hs]
   | poke res idx thr => simp only [specStep, hs]
   | getrules res => exact hs
   | getall => exact hs
@@ -814,14 +786,12 @@ theorem specStep_ideal (s : SpecSt) (o : Op) (hs : s.rules = s.ideal)
     simp only [specStep]
     split <;> exact hs
 
-theorem specRun_ideal (h : List Op) (s : SpecSt) (hs : s.rules = s.ideal) (hst : storesAlong s h = true) :
+theorem specRun_ideal (h : List Op) (s : SpecSt) (hs : s.rules = s.ideal) :
     (specRun s h).1.rules = (specRun s h).1.ideal := by
   induction h generalizing s with
   | nil => exact hs
   | cons o r ih =>
-    unfold storesAlong at hst
-    rw [Bool.and_eq_true] at hst
     simp only [specRun]
-    exact ih _ (specStep_ideal s o hs hst.1) hst.2
+    exact ih _ (specStep_ideal s o hs)
 
 end Sentinel.Iso
